@@ -140,7 +140,7 @@ func (g *evGen) event(supi, nf string, flags int) {
 	if r.chance(25) {
 		trigs = append(trigs, r.pickStr("F", "V", "Q", "X"))
 	}
-	fmt.Fprintf(g.w, "chf create %s\n", fmtReq(supi, nf, 200+g.done%50, 0, 1, flags|1, trigs, usages))
+	fmt.Fprintf(g.w, "chf create %s\n", fmtReq(supi, nf, 200+g.done%50, 0, g.r.pick(1, 0), flags|1, trigs, usages))
 	g.done++
 }
 
